@@ -137,7 +137,7 @@ PLAN = {
                 assumptions=F64_ASSUME[:2] + ['A-ieee: rustc/LLVM and CBMC agree on IEEE-754 binary64 comparison, floor and float->int casts',
                              'loop-free harness over kani::any::<f64>() / kani::any::<i64>(): every bit pattern, no bound'],
                 unclaimed=[]),
-    'C19': dict(verus=TOKS + GLUES, kani=['f64-ast', 'complex-ast'], level='proof', assumptions=TOK_ASSUME + KANI_ASSUME,
+    'C19': dict(verus=TOKS + GLUES, kani=['f64-ast', 'complex-ast', 'i64-ast', 'number-ast'], level='proof', assumptions=TOK_ASSUME + KANI_ASSUME,
                 unclaimed=['that std str::parse::<f64> is correctly rounded, parse::<i64> exact and Decimal::from_str exact (A-std-parse: the conversions are uninterpreted)',
                            'the read-back clause: it needs the shape of std / rust_decimal / num_complex Display output (A-display), which no contract here can express; '
                            'what is proved towards it: the literal grammar accepted by the tokenizers, and that a prefix minus is an exact sign flip (Kani K:f64-ast/step_negative, K:complex-ast/step_negative, Verus i64 Negative)']),
